@@ -312,7 +312,7 @@ STACK_ASSUME = [
     'read-only roots hold only files that other Kismet writers published (World.ro_valid, part of the invariant the stubs preserve because no mutating stub accepts a path under a read-only root)',
     'std::io::copy, tempfile::{tempfile, tempfile_in, NamedTempFile::{new_in, as_file_mut, into_parts}} as written in contracts/prelude (copy is one atomic step; anonymous temporary files have no name)',
     'T14: `opt.and_then(|c| c.get(key).transpose()).transpose()` is rewritten to the equal match expression; `self.write_side.as_ref().map(Arc::as_ref)` to the stand-in opt_arc_as_ref',
-    'the directory-adding builder methods (plain_writer, sharded_writer, reader, ...) and the derived Default impls are not under contract',
+    'the iterator-taking builder methods (plain_caches, plain_readers), `take`, the generic `consistency_checker(impl Fn)` wrappers and the derived Default impls are not under contract (the other builder methods are: a reader is appended at the end of the search list, a writer replaces the write cache, each with the lookup function of the directory it was given)',
 ]
 _u4('C13', 'Unbounded proof, for stacks of any depth: ReadOnlyCache::get/touch return / mark the copy of the first level in registration order that holds one '
     '(first_copy) and report a miss only if no level holds one; Cache::get::doit / touch::doit consult the write cache first. Cache::get_or_update (the verbatim body, generic in '
